@@ -1,0 +1,45 @@
+//go:build verif
+
+// Contracts read by /verif/govc (comment-only; never compiled into the node).
+
+package shuffle
+
+// GP C.5 E_l for l <= 8: little-endian octets of x
+//@ func SerializeFixedLength
+//@   props C20
+//@   requires len: l >= 0 && l <= 8
+//@   ensures le: len(result) == l && forall(i, 0, 8, i < l ==> result[i] == uint8(uint64(x) >> (8*uint(i))))
+//@   ensures fresh: fresh(result)
+
+// inverse of E_l for at most 8 octets
+//@ func DeserializeFixedLength
+//@   props C20
+//@   requires len: len(data) <= 8
+//@   ensures le4: len(data) == 4 ==> uint64(result) == uint64(data[0]) | uint64(data[1])<<8 | uint64(data[2])<<16 | uint64(data[3])<<24
+//@   ensures le0: len(data) == 0 ==> result == 0
+
+// GP F.2 Q_l: l numbers, each the little-endian value of 4 octets of Blake2b(h ++ E_4(i/8)); a function of its
+// arguments only (no package state read or written: whole-heap frame), the hash being an uninterpreted pure function.
+//@ func numericSequenceFromHash
+//@   props C20
+//@   ensures len: len(result) == int(length) && fresh(result)
+//@   loop i#0
+//@     invariant bound: len(numericSequence) == int(length) && fresh(numericSequence)
+//@     invariant frame: frame_only()
+
+// GP F.1: the element at index r[0] mod |s| comes first, the rest is the shuffle of the remainder (which the
+// implementation builds in place in s: s is used as scratch space and is overwritten)
+//@ func FisherYatesShuffle
+//@   props C20
+//@   opt decreases=len(s)
+//@   requires rand: len(r) >= len(s) && len(s) < 4294967296
+//@   ensures len: len(result) == len(s) && fresh(result)
+//@   ensures head: len(s) > 0 ==> result[0] == old(s[int(r[0] % uint32(len(s)))])
+//@   assigns s[*]
+
+//@ func Shuffle
+//@   props C20
+//@   requires len: len(s) < 4294967296
+//@   ensures len: len(result) == len(s) && fresh(result)
+//@   ensures head: len(s) > 0 ==> exists(j, 0, len(s), result[0] == old(s[j]))
+//@   assigns s[*]
